@@ -135,7 +135,7 @@ impl Property for C17 {
                                 plan.push(Fault::Child { at, kind });
                             }
                         }
-                        Backend::Cadical => {}
+                        Backend::Cadical | Backend::Process { .. } => {}
                     }
                 }
                 plan
